@@ -37,24 +37,25 @@ def main():
     r = sh(f"git -C /repo worktree add -q --detach {wt} HEAD")
     assert r.returncode == 0, r.stderr
     sh(f"cp /repo/gemclus/tree/_utils.cpp /repo/gemclus/tree/_utils.cpython-312-x86_64-linux-gnu.so {wt}/gemclus/tree/")
-    os.makedirs(f"{wt}/SEED", exist_ok=True)
-    shutil.copy(os.path.join(src, "demo.py"), f"{wt}/SEED/demo.py")
+    # the demo lives outside the worktree: the repository's pytest configuration collects every *.py file
+    demo = f"/tmp/sv/{name}_demo.py"
+    shutil.copy(os.path.join(src, "demo.py"), demo)
     env = dict(os.environ, PYTHONPATH=wt, OMP_NUM_THREADS="1", OPENBLAS_NUM_THREADS="1")
     res = {"name": name, "property": prop}
-    d0 = subprocess.run(["/venv/bin/python", "SEED/demo.py"], cwd=wt, env=env, capture_output=True, text=True, timeout=900)
+    d0 = subprocess.run(["/venv/bin/python", demo], cwd=wt, env=env, capture_output=True, text=True, timeout=900)
     res["demo_on_original_rc"] = d0.returncode
     ap = sh(f"git -C {wt} apply {os.path.abspath(os.path.join(src, 'patch.diff'))}")
     res["patch_applies"] = ap.returncode == 0
     if ap.returncode != 0:
         res["apply_error"] = ap.stderr[-500:]
-    d1 = subprocess.run(["/venv/bin/python", "SEED/demo.py"], cwd=wt, env=env, capture_output=True, text=True, timeout=900)
+    d1 = subprocess.run(["/venv/bin/python", demo], cwd=wt, env=env, capture_output=True, text=True, timeout=900)
     res["demo_on_changed_rc"] = d1.returncode
     res["demo_changed_tail"] = (d1.stdout + d1.stderr)[-600:]
     res["files_changed"] = sh(f"git -C {wt} diff --stat").stdout.strip().split("\n")[-1:]
     if not no_tests:
         t0 = time.time()
         xml = f"/tmp/sv/{name}.xml"
-        subprocess.run(f"cd {wt} && PYTHONPATH={wt} /venv/bin/python -m pytest -ra -q -p no:cacheprovider --timeout=900 "
+        subprocess.run(f"cd {wt} && OMP_NUM_THREADS=2 OPENBLAS_NUM_THREADS=2 PYTHONPATH={wt} /venv/bin/python -m pytest -ra -q -p no:cacheprovider --timeout=900 "
                        f"--continue-on-collection-errors --junitxml={xml} > /tmp/sv/{name}.testlog 2>&1", shell=True)
         b = sh(f"python3 {VERIF}/tools/baseline_ok.py {xml}")
         res["baseline"] = b.stdout.strip().split("\n")[0]
